@@ -1,7 +1,7 @@
 (* C05 - a concrete instance of Model/C05Memo.v used by the correspondence run of check C05: keys, values and results
    are small integers interned by the harness; the translation function and the query executor are lookup tables filled
    from the cold-cache run of the real implementation.  Definitions only. *)
-Require Import PonyV.Base.PyBase PonyV.Model.C05Memo.
+Require Import PonyV.Base.PyBase PonyV.Model.C05Memo PonyV.Gen.C05Flags.
 
 (* (code id, vartypes id, pinned parameter values, translator id): "for parameter values agreeing with the pinned ones,
    translating code c under vartypes vt gives this translator" - a table that satisfies the read-set hypothesis by construction *)
@@ -42,7 +42,7 @@ Definition sop_of (c : Z * Z) : sop unit Z :=
   end.
 
 Definition run_session (t : list (nat * Z * Z)) (h : list (Z * Z)) : list (option Z) :=
-  srun nat unit Z Z Z.eqb (exec_of t) (fun db _ => S db) false false (mksess nat unit Z Z 0%nat [] []) (map sop_of h).
+  srun nat unit Z Z Z.eqb (exec_of t) (fun db _ => S db) raw_clears_in_source aggr_flushes_in_source (mksess nat unit Z Z 0%nat [] []) (map sop_of h).
 
 Definition fixed_eqb (a b : list (nat * Z)) : bool :=
   (fix go (x y : list (nat * Z)) := match x, y with [] , [] => true | (p, v) :: x', (q, w) :: y' => Nat.eqb p q && Z.eqb v w && go x' y' | _, _ => false end) a b.
